@@ -1066,6 +1066,32 @@ def shrink(plan):
             del a[i:i + 2]
         c['peer']['http'] = {}
         yield c
+    if plan['transport'] == 'textgears' and '--textgears' in plan['argv']:
+        c = copy.deepcopy(plan)
+        c['transport'] = 'run'
+        i = c['argv'].index('--textgears')
+        del c['argv'][i:i + 2]
+        c['peer']['http'] = {}
+        yield c
+    if '--multi-language' in plan['argv']:
+        c = copy.deepcopy(plan)
+        c['argv'].remove('--multi-language')
+        c['opts']['ml'] = False
+        c['opts']['ml_flag'] = False
+        yield c
+    # a long line of plain words: keep the half that still fails
+    for ref in refs:
+        frs = _get_frags(plan, ref)
+        for i, fr in enumerate(frs):
+            if fr['k'] in ('longline', 'plain') and len(fr['w']) > 3:
+                ws = fr['w']
+                for part in (ws[:len(ws) // 2], ws[len(ws) // 2:]):
+                    c = copy.deepcopy(plan)
+                    nf = docgen.frag(fr['k'], ' '.join(part) + '.\n', part)
+                    nf['lang'] = fr.get('lang')
+                    cf = _get_frags(c, ref)
+                    cf[i] = nf
+                    yield _prune_targets(c)
     # drop options that the oracle tracks in plan['opts'] consistently
     for opt, key, dflt, nargs in (
             ('--ml-disable', 'ml_disable', '', 1),
